@@ -181,6 +181,11 @@ func runWorkload(sh shape, N int, res *result) {
 			viol("workload:open-fails", err.Error())
 			return nil
 		}
+		st.VerifSetAutoCompact(false)
+		hdr, ftr := 24, 68
+		if cfg.HashID == reftable.SHA256ID {
+			hdr, ftr = 28, 72
+		}
 		for n := 1; n <= N; n++ {
 			before := st.VerifLen()
 			attempts := st.Stats.Attempts
@@ -226,6 +231,36 @@ func runWorkload(sh shape, N int, res *result) {
 				viol("workload:add-fails", fmt.Sprintf("Add #%d: %v", n, err))
 				return nil
 			}
+			// Add = commit + AutoCompact. Between the two, decide independently (from the file lengths in
+			// the directory) whether two adjacent tables share a size class: class = floor(log2(bytes of
+			// blocks + 1)), i.e. the file without header and footer.
+			var classes []int
+			for _, nm := range st.VerifNames() {
+				ino := w.Lookup(nm)
+				if ino == nil {
+					viol("workload:listed-table-missing", nm)
+					return nil
+				}
+				classes = append(classes, ilog2(uint64(len(ino.Data)-hdr-ftr+1)))
+			}
+			adjacent := false
+			for i := 1; i < len(classes); i++ {
+				if classes[i] == classes[i-1] {
+					adjacent = true
+				}
+			}
+			if err := st.AutoCompact(); err != nil {
+				viol("workload:autocompact-fails", fmt.Sprintf("after Add #%d: %v", n, err))
+				return nil
+			}
+			if attempted := st.Stats.Attempts > attempts; attempted != adjacent {
+				if attempted {
+					viol("workload:compaction-without-equal-neighbours", fmt.Sprintf("after Add #%d the tables have size classes %v (no two adjacent equal) but AutoCompact compacted", n, classes))
+				} else {
+					viol("workload:nothing-despite-equal-neighbours", fmt.Sprintf("after Add #%d the tables have size classes %v (two adjacent tables share a class) but AutoCompact reported nothing to do", n, classes))
+				}
+				return nil
+			}
 			depth := st.VerifLen()
 			if st.Stats.Attempts > attempts {
 				res.Compacts++
@@ -235,6 +270,9 @@ func runWorkload(sh shape, N int, res *result) {
 				}
 				if depth > before {
 					viol("workload:compaction-did-not-reduce-tables", fmt.Sprintf("Add #%d ran a compaction but the stack went from %d(+1) to %d tables", n, before, depth))
+				}
+				if len(classes) > 0 && depth >= len(classes) {
+					viol("workload:compaction-did-not-reduce-tables", fmt.Sprintf("after Add #%d AutoCompact ran but left %d of %d tables", n, depth, len(classes)))
 				}
 			}
 			if n >= 2 {
@@ -420,7 +458,7 @@ func main() {
 	cov["compactions_observed"] = tot.Compacts
 	cov["worst_depth_over_limit"] = tot.MaxRatio
 	cov["worst_entries_over_limit"] = tot.MaxERatio
-	cov["rule"] = "(a) every size vector of length 0..L over the alphabet (sizes around class boundaries 2,4,8,16 and a large one) is given to the real segment chooser: result nil iff no two adjacent sizes share floor(log2); otherwise a contiguous in-range segment of >=2 tables; iterating suggest + replace-by-sum terminates in fewer than len steps. (b) for every workload shape (name length x value kind x refs per transaction x fresh/rewritten names x write configuration) N identical-size transactions are added to a real Stack; after EVERY Add: a compaction that ran reduced the table count, depth <= 2*log2(n) (n>=2), Stats.EntriesWritten <= n*log2(n)*entries per transaction. Non-trivial = a vector with a suggestion / an Add that triggered a compaction"
+	cov["rule"] = "(a) every size vector of length 0..L over the alphabet (sizes around class boundaries 2,4,8,16 and a large one) is given to the real segment chooser: result nil iff no two adjacent sizes share floor(log2); otherwise a contiguous in-range segment of >=2 tables; iterating suggest + replace-by-sum terminates in fewer than len steps. (b) for every workload shape (name length x value kind x refs per transaction x fresh/rewritten names x write configuration) N identical-size transactions are added to a real Stack; after EVERY Add (performed as commit, then an explicit AutoCompact): AutoCompact compacts iff two adjacent tables share a size class computed independently from the file lengths, a compaction that ran reduced the table count, depth <= 2*log2(n) (n>=2), Stats.EntriesWritten <= n*log2(n)*entries per transaction. Non-trivial = a vector with a suggestion / an Add that triggered a compaction"
 	var ss []interface{}
 	for _, s := range tot.Samples {
 		ss = append(ss, s)
